@@ -5,6 +5,7 @@ import (
 	"encoding/json"
 	"fmt"
 	"os"
+	"os/exec"
 	"path/filepath"
 	"regexp"
 	"sort"
@@ -189,6 +190,7 @@ func runThorough(c *Check, fn checkFn) {
 	seedRoot := filepath.Join(home(), "seeded")
 	ents, _ := os.ReadDir(seedRoot)
 	var results []map[string]interface{}
+	var pending []variantJob
 	detected, expected := 0, 0
 	for _, e := range ents {
 		if !e.IsDir() {
@@ -213,41 +215,24 @@ func runThorough(c *Check, fn checkFn) {
 		}
 		expected++
 		r := map[string]interface{}{"seed": m.ID}
-		ov, err := overlayForPatch(repoDir(), filepath.Join(seedRoot, e.Name(), "patch.diff"))
-		if err != nil {
-			r["result"] = "skipped: " + err.Error()
-			results = append(results, r)
-			continue
+		pending = append(pending, variantJob{r: r, patch: filepath.Join(seedRoot, e.Name(), "patch.diff")})
+	}
+	runVariants(c.ID, pending)
+	for _, j := range pending {
+		switch {
+		case j.status != "decided":
+			j.r["result"] = j.status
+		case len(j.keys) > 0:
+			j.r["result"] = "detected"
+			j.r["violations"] = j.keys
+			detected++
+		default:
+			j.r["result"] = "MISSED"
 		}
-		func() {
-			defer func() {
-				if rec := recover(); rec != nil {
-					r["result"] = fmt.Sprintf("undecided on mutant: %v", rec)
-				}
-			}()
-			lm := LoadWith(repoDir(), ov, nil)
-			sub := &Check{ID: c.ID, Tier: "thorough", Funcs: map[string]bool{}, Extra: map[string]interface{}{}, L: lm}
-			defer withLoaded(lm, c.L)()
-			fn(sub)
-			var keys []string
-			for _, o := range sub.Obs {
-				if !o.OK && !o.Info {
-					keys = append(keys, o.Key())
-				}
-			}
-			sort.Strings(keys)
-			if len(keys) > 0 {
-				r["result"] = "detected"
-				r["violations"] = keys
-				detected++
-			} else {
-				r["result"] = "MISSED"
-			}
-		}()
-		results = append(results, r)
+		results = append(results, j.r)
 	}
 	c.Extra["self_validation"] = map[string]interface{}{"seeds_expected": expected, "seeds_detected": detected, "results": results,
-		"note": "seeded changes are applied in memory through packages.Config.Overlay; nothing is written to /repo; results never turn into a VIOLATION of the property"}
+		"note": "seeded changes are applied in memory through packages.Config.Overlay (one child process of this binary per seed, so memory is returned); nothing is written to /repo; results never turn into a VIOLATION of the property"}
 	for _, r := range results {
 		if r["result"] == "MISSED" {
 			fmt.Printf("SELF-VALIDATION WARNING: check %s no longer detects seeded change %v\n", c.ID, r["seed"])
@@ -267,6 +252,7 @@ func runThorough(c *Check, fn checkFn) {
 	negRoot := filepath.Join(home(), "negctl")
 	nents, _ := os.ReadDir(negRoot)
 	var nres []map[string]interface{}
+	var npending []variantJob
 	nrun, nsilent := 0, 0
 	for _, e := range nents {
 		if !e.IsDir() {
@@ -287,39 +273,26 @@ func runThorough(c *Check, fn checkFn) {
 			continue
 		}
 		r := map[string]interface{}{"control": e.Name()}
-		ov, err := overlayForPatch(repoDir(), pf)
-		if err != nil {
-			r["result"] = "skipped: " + err.Error()
-			nres = append(nres, r)
-			continue
+		npending = append(npending, variantJob{r: r, patch: pf})
+	}
+	runVariants(c.ID, npending)
+	for _, j := range npending {
+		switch {
+		case strings.HasPrefix(j.status, "skipped"):
+			j.r["result"] = j.status
+		case j.status != "decided":
+			nrun++
+			j.r["result"] = "UNDECIDED on control: " + j.status
+		case len(j.keys) > 0:
+			nrun++
+			j.r["result"] = "FALSE ALARM"
+			j.r["violations"] = j.keys
+		default:
+			nrun++
+			nsilent++
+			j.r["result"] = "silent"
 		}
-		nrun++
-		func() {
-			defer func() {
-				if rec := recover(); rec != nil {
-					r["result"] = fmt.Sprintf("UNDECIDED on control: %v", rec)
-				}
-			}()
-			lm := LoadWith(repoDir(), ov, nil)
-			sub := &Check{ID: c.ID, Tier: "thorough", Funcs: map[string]bool{}, Extra: map[string]interface{}{}, L: lm}
-			defer withLoaded(lm, c.L)()
-			fn(sub)
-			var keys []string
-			for _, o := range sub.Obs {
-				if !o.OK && !o.Info {
-					keys = append(keys, o.Key())
-				}
-			}
-			sort.Strings(keys)
-			if len(keys) > 0 {
-				r["result"] = "FALSE ALARM"
-				r["violations"] = keys
-			} else {
-				r["result"] = "silent"
-				nsilent++
-			}
-		}()
-		nres = append(nres, r)
+		nres = append(nres, j.r)
 	}
 	c.Extra["negative_controls"] = map[string]interface{}{"controls_run": nrun, "controls_silent": nsilent, "results": nres,
 		"note": "behaviour-preserving refactorings written by fresh sub-agents and validated (build + package tests); applied in memory; the check must report nothing on them"}
@@ -338,5 +311,42 @@ func withLoaded(l, prev *Loaded) func() {
 	return func() {
 		curL = prev
 		transpMemo = nil
+	}
+}
+
+type variantJob struct {
+	r      map[string]interface{}
+	patch  string
+	keys   []string
+	status string
+}
+
+// runVariants runs this binary once per job ("check <id> quick" with the patch as in-memory overlay) and collects the
+// keys of the obligations that failed. Child processes, at most three at a time: every variant builds a whole SSA
+// program, and a process that loaded dozens of them was killed for memory.
+func runVariants(id string, jobs []variantJob) {
+	sem := make(chan struct{}, 3)
+	done := make(chan int, len(jobs))
+	for i := range jobs {
+		go func(i int) {
+			sem <- struct{}{}
+			defer func() { <-sem; done <- i }()
+			cmd := exec.Command(os.Args[0], "check", id, "quick")
+			cmd.Env = append(os.Environ(), "AKVERIF_OVERLAY="+jobs[i].patch, "AKVERIF_SUB=1", "GOMAXPROCS=4")
+			out, _ := cmd.Output()
+			jobs[i].status = "no result"
+			for _, line := range strings.Split(string(out), "\n") {
+				if strings.HasPrefix(line, "SUBKEY ") {
+					jobs[i].keys = append(jobs[i].keys, strings.TrimPrefix(line, "SUBKEY "))
+				}
+				if strings.HasPrefix(line, "SUBSTATUS ") {
+					jobs[i].status = strings.TrimPrefix(line, "SUBSTATUS ")
+				}
+			}
+			sort.Strings(jobs[i].keys)
+		}(i)
+	}
+	for range jobs {
+		<-done
 	}
 }
